@@ -10,7 +10,7 @@ RULE = (
     "distinct = hash of the configuration; trivial = no option restricts anything"
 )
 ASSUMPTIONS = ["filter_ and stop are pure functions of the node (the library may evaluate stop more than once per node)"]
-GATES = ["mon.C06.sequence", "C06.stop_on_start", "C06.filtered_with_visible_children", "C06.stop_below_filtered", "C06.empty_group", "C06.maxlevel_le_0", "C06.maxlevel_cuts", "C06.predicate_objects_reused", "C06.predicate_shape.1", "C06.predicate_shape.2", "C06.predicate_shape.3", "C06.predicate_shape.4", "C06.maxlevel_int_subclass", "mon.C06.raising_predicate"]
+GATES = ["mon.C06.sequence", "C06.stop_on_start", "C06.filtered_with_visible_children", "C06.stop_below_filtered", "C06.empty_group", "C06.maxlevel_le_0", "C06.maxlevel_cuts", "C06.predicate_objects_reused", "C06.predicate_shape.1", "C06.predicate_shape.2", "C06.predicate_shape.3", "C06.predicate_shape.4", "C06.maxlevel_int_subclass", "mon.C06.raising_predicate", "C06.prepared_before_predicates_settled"]
 
 
 def plan(tier, seed, jobs):
@@ -94,6 +94,21 @@ def check_config(ctx, nodes, idmap, tr, par, stop, hidden, maxlevel, case, use_n
             obs = [[idmap.get(id(x), "?") for x in g] for g in got]
         else:
             obs = [idmap.get(id(x), "?") for x in got]
+        if fns is None and (len(stop) + len(hidden) + s) % 7 == 0 and (stop or hidden):
+            # iterator objects prepared first, the predicates' answers settle afterwards, then the iteration runs on a
+            # tree and under predicates that are constant from its first next() to its end
+            late = {"stop": frozenset(range(len(nodes))) - stop, "hidden": frozenset(range(len(nodes))) - hidden}
+            kw2 = dict(kw, stop=lambda n: idmap[id(n)] in late["stop"], filter_=lambda n: idmap[id(n)] not in late["hidden"])
+            it2 = itcls(nodes[s], **kw2)
+            late["stop"], late["hidden"] = stop, hidden
+            ctx.count("C06.prepared_before_predicates_settled")
+            got2 = list(it2)
+            obs2 = [[idmap.get(id(x), "?") for x in g] for g in got2] if nm in ("group", "zigzag") else [idmap.get(id(x), "?") for x in got2]
+            if obs2 != exp[nm]:
+                ctx.violation("C06/%s/prepared-earlier" % nm, "restricted-reference-order",
+                              dict(case, start=s, stop=sorted(stop), hidden=sorted(hidden), maxlevel=maxlevel, kwargs=sorted(kw)), expected=exp[nm], observed=obs2)
+                ok = False
+                continue
         if obs != exp[nm]:
             ctx.violation("C06/%s" % nm, "restricted-reference-order",
                           dict(case, start=s, stop=sorted(stop), hidden=sorted(hidden), maxlevel=maxlevel, kwargs=sorted(kw)),
